@@ -9,16 +9,16 @@ EXPECT="
 C37-1:C37:caught C37-2:C37:caught C37-3:C37:caught C37-4:C37:caught
 C01-1:C01:caught C01-2:C01:caught C01-3:C01:caught C01-4:C01:caught
 C02-1:C02:missed C02-2:C02:missed C02-3:C02:missed C02-4:C02:caught
-C05-1:C05:caught C05-2:C05:missed C05-3:C05:missed C05-4:C05:missed
+C05-1:C05:caught C05-2:C05:caught C05-3:C05:missed C05-4:C05:missed
 C06-1:C06:caught C06-2:C06:caught C06-3:C06:missed C06-4:C06:caught
 C07-1:C07:missed C07-2:C07:caught
 C12-1:C12:caught C12-2:C12:caught C12-3:C12:caught C12-4:C12:caught
-C13-1:C13:missed C13-2:C13:caught
+C13-1:C13:caught C13-2:C13:caught
 C14-1:C14:caught C14-2:C14:caught C14-3:C14:caught C14-4:C14:caught
 C15-1:C15:caught C15-2:C15:caught
 C17-1:C17:missed C17-2:C17:missed
-C19-1:C19:missed C19-2:C19:missed
-C20-1:C20:missed C20-2:C20:caught
+C19-1:C19:caught C19-2:C19:caught
+C20-1:C20:caught C20-2:C20:caught
 C22-1:C22:caught C22-2:C22:caught C22-3:C22:caught C22-4:C22:caught
 C26-1:C26:caught C26-2:C26:missed C26-3:C26:caught C26-4:C26:caught
 C27-1:C27:caught C27-2:C27:caught
